@@ -33,6 +33,10 @@ CHECKS["C15"] = dict(category="exploration",
    technique="Lean model of toJSON/fromJSON/jsmn with checked indices + theorems (escape/unescape inverse for all byte strings, string-scan boundary); differential on plain and ASan+UBSan builds",
    text="Proved in Lean for every byte string: unescape(escape s) = s and the tokenizer's string scan ends at the printer's closing quote. The full round-trip theorem and 'fromJSON never reads out of bounds' are stated on the model but not yet proved; they are currently decided by the differential suites (exhaustive escape tables, random Data trees, truncations/mutations/random bytes on sanitizer builds), hence 'exploration'.",
    design_ref="6 / C15", note="Trusted: hand model Model.Json (jsmn non-strict, token budget loop, tree builder), tied to the compiled code by the json suites; Data.node/binary outside the model.")
+CHECKS["C17"] = dict(category="proof",
+   technique="Lean theorems over tables regenerated on every run by probing the compiled parser and evaluator (translator), plus differential evaluation of generated expressions",
+   text="Proved for all stores and all expressions over the property's operator set: evaluator-of-the-code = Promela/C semantics, and no expression reaches a crash branch; precedence/associativity decided by `decide` over the reduce-first matrix probed from the compiled LALR parser (full statement refuted for the ||/&& pair: recorded finding). The probed tables are regenerated before the Lean library is re-checked, so a change of an evaluator case or of the grammar tables breaks a theorem. Partial: that the compiled parser behaves as an operator-precedence parser with the probed matrix on all inputs, and that the C++ evaluator is the modelled function, rest on the differential suite (all depth-2 trees sampled + random depth<=5, minimal and full parentheses, 3 valuations).",
+   design_ref="6 / C17", note="Trusted: Lean kernel; translate/promela_tables.py (exhaustive probes of finite tables); hand model Model.Promela.evalModel; int overflow excluded (mathematical integers); bison/flex generated code as executor.")
 PENDING = {}   # id -> reason (filled while the framework is being built)
 
 def main():
